@@ -441,12 +441,42 @@ Definition file_size_ok (c : cfg) (roots : list node) (p : list N) : bool :=
                     | _ => false
                     end) roots.
 
+(* the Extract calls of a whole-tree Run over several roots, attributed to their root: a root's walk starts with the
+   visit of "." *)
+Fixpoint split_roots (evs : list event) (cur : list (list N * list N)) (started : bool) : list (list (list N * list N)) :=
+  match evs with
+  | [] => if started then [rev cur] else []
+  | EVisit p :: l =>
+      if ln_eqb p [DOT] then (if started then rev cur :: split_roots l [] true else split_roots l [] true)
+      else split_roots l cur started
+  | EExtract e p :: l => split_roots l ((e, p) :: cur) started
+  | _ :: l => split_roots l cur started
+  end.
+
+Fixpoint forallb2 {A B} (f : A -> B -> bool) (a : list A) (b : list B) : bool :=
+  match a, b with
+  | x :: a', y :: b' => f x y && forallb2 f a' b'
+  | _, _ => true
+  end.
+
+(* every extracted file is within the size limit in ITS OWN root *)
+Definition sizes_per_root_ok (w : wcase) : bool :=
+  let c := cfg_of_case w in
+  (c_max_size c <=? 0)%Z ||
+  negb (forallb fault_free (w_roots w) && match w_paths w with [] => true | _ => false end) ||
+  forallb2 (fun cs t => forallb (fun ep => match lookup_from t (spath (snd ep)) with
+                                           | Some (File _ _ sz _ _) => (sz <=? c_max_size c)%Z
+                                           | _ => false
+                                           end) cs)
+           (split_roots (o_events (w_obs w)) [] false) (w_roots w).
+
 Definition c10_bounds_on_obs (w : wcase) : bool :=
   let c := cfg_of_case w in
   let o := w_obs w in
   let cs := calls (o_events o) in
   ((c_max_inodes c <=? 0)%Z || (Z.of_nat (length (visits (o_events o))) <=? c_max_inodes c)%Z)
   && forallb (fun ep => file_size_ok c (w_roots w) (snd ep)) cs
+  && sizes_per_root_ok w
   && match c_cancel c with
      | NoCancel => true
      | CancelAtVisit k => extracts_before (o_events o) 0 0 (fun nv _ _ => (nv <? k)%nat)
@@ -512,3 +542,43 @@ Definition c01_multi_spec_on_obs (w : wcase) : bool :=
   && list_eqb ep_eqb (calls (o_events (w_obs w))) (flat_map (expected_calls c) (w_roots w)).
 
 Definition case_spec_ok_C01_multi (w : wcase) : bool := negb (c01_multi_domain w) || c01_multi_spec_on_obs w.
+
+(* ------------------------------------------------------------------ C09 oracle, requested paths *)
+(* every requested path that can be stat'ed is scanned as in the fault-free run, minus what is lost below it; a requested
+   path that cannot be stat'ed contributes nothing and does not affect the paths after it *)
+Definition expected_paths_faulty (c : cfg) (t : node) : list (list N * list N) :=
+  flat_map (fun p => match lookup_from t (spath p) with
+                     | None => []
+                     | Some nd =>
+                         if node_stat_fails nd then []
+                         else filter (fun ep => survives c nd (skipn (length (spath p)) (spath (snd ep))))
+                                     (expected_for_path c (erase_faults t) p)
+                     end) (c_paths c).
+
+Definition c09_paths_domain (w : wcase) : bool :=
+  match w_roots w with
+  | [t] =>
+      let c := cfg_of_case w in
+      wf_tree t && no_limits c && xt_no_panic w && nodup_b ln_eqb (w_exts w)
+      && negb (match w_paths w with [] => true | _ => false end)
+      && negb (c_fatal c) && tree_quiet c t && gi_readable c t
+      && forallb (fun p => canonical_path p &&
+                           match lookup_from t (spath p) with
+                           | Some (Dir _ _ _) => reached (whole_tree c) (erase_faults t) (spath p)
+                           | _ => true
+                           end) (w_paths w)
+  | _ => false
+  end.
+
+Definition c09_paths_spec_on_obs (w : wcase) : bool :=
+  match w_roots w with
+  | [t] =>
+      let c := cfg_of_case w in
+      let exp := expected_paths_faulty c t in
+      oclass_eqb (o_class (w_obs w)) OOk
+      && list_eqb ep_eqb (calls (o_events (w_obs w))) exp
+      && list_eqb tpkg_eqb (o_inv (w_obs w)) (inventory_of_calls c exp)
+  | _ => true
+  end.
+
+Definition case_spec_ok_C09_paths (w : wcase) : bool := negb (c09_paths_domain w) || c09_paths_spec_on_obs w.
